@@ -400,7 +400,9 @@ theorem handleOnConnection (cfg : Cfg) (h : IdxInv k) (fd : Nat) (l r : SockAddr
             · exact (h.setSock _ _).pushToListener _ _
           · exact h
         · exact h
-        · dsimp only
+        · split
+          · exact (h.emit _ _ _).remove _
+          dsimp only
           split
           · exact (h.setSock _ _).emit _ _ _
           · exact h.setSock _ _
